@@ -480,6 +480,37 @@ def passthrough_obligation(chk, F, system, rows, supplied, rng):
             chk.harness_error("%s did not reproduce concretely" % name)
 
 
+def triclinic_obligation(chk, F, rng):
+    """The ninth system: triclinic has no relations, so the supplied columns alone must determine all 21 components -- a table with fewer
+    columns is under-determined and must be refused unless ignore_rank is set (and vanishing columns omitted like for every system)."""
+    name = "triclinic:refusal[3 supplied columns, ignore_rank=False]"
+    ctx = new_context()
+    df, vals = free_table(ctx, ["c11", "c12", "c44"], 1)
+    t0 = time.time()
+    try:
+        paths, proxy, ex = FC.run_fill(F, df, "triclinic", explorer=X.Explorer(max_paths=8, name=name))
+    except (SymError, X.PathBudgetExceeded) as e:
+        chk.inconclusive(name, str(e))
+        return
+    accepted = [p for p in paths if p.exception is None]
+    chk.obligation(name + ": raises (rank 3 < 21)", "unsat" if not accepted else "sat", seconds=round(time.time() - t0, 2), kind="refusal-iff",
+                   detail=dict(paths=len(paths)))
+    if accepted:
+        data = {"V": [100.0], "c11": [300.0], "c12": [100.0], "c44": [80.0]}
+        try:
+            with warnings.catch_warnings():
+                warnings.simplefilter("ignore")
+                out = F.fill_cij(pandas.DataFrame(data), "triclinic")
+            chk.violation("triclinic:under-determined-accepted", "fill_cij(table with only c11, c12, c44, 'triclinic') accepts the table although the supplied "
+                          "columns do not determine the 21 components (no relations, rank 3) and ignore_rank is not set", dict(table=data))
+        except Warning:
+            chk.harness_error("triclinic acceptance did not reproduce")
+        except BaseException as e:
+            if isinstance(e, (KeyboardInterrupt, SystemExit)):
+                raise
+            chk.violation("triclinic:raises", "fill_cij(..., 'triclinic') raises %s: %s" % (type(e).__name__, e), dict(table=data))
+
+
 def configuration_twins(chk, F, rng):
     """Stage R(c): the same fill under configurations symbolic values cannot carry (dtype, cwd, relation-file path)."""
     from cij.data import get_data_fname
@@ -678,6 +709,7 @@ def main():
             drop_obligation(chk, F, system, rows, canon, rng)
         if tier != "quick" or system in ("cubic", "hexagonal"):
             passthrough_obligation(chk, F, system, rows, canon, rng)
+    triclinic_obligation(chk, F, rng)
     configuration_twins(chk, F, rng)
     chk.bound(systems=systems, supplied_sets="canonical, full non-zero, canonical minus one key%s" % ("" if tier == "quick" else " (each), 3 exchanges"),
               flags="all 4 combinations", residual_atol=[0.1] if tier == "quick" else [0.1, 1e-4], rows=1 if tier == "quick" else 2,
